@@ -73,9 +73,9 @@ def hash_apply(st, domain, leaves):
     tag = 'hash:' + t.sexpr()
     if tag not in st.notes:
         st.notes[tag] = True
-        st.assume(DOM(t) == idx)
+        st.assume_fact(DOM(t) == idx)
         for inv, l in zip(invs, leaves):
-            st.assume(inv(t) == l)
+            st.assume_fact(inv(t) == l)
     return t
 
 
@@ -153,12 +153,12 @@ def bytes_len(it, st, b):
     if isinstance(b, Agg):
         return bv(len(b.fields), 64)
     if isinstance(b, Opaque) and b.kind == 'Ser':
-        tag = 'serlen:' + str(id(b.data))
+        tag = 'serlen:' + b.data.ty + ':' + '|'.join(x.sexpr() for x in flatten(b.data.value))
         n = st.notes.get(tag)
         if n is None:
             n = fresh('serlen', z3.BitVecSort(64))
             st.notes[tag] = n
-            st.assume(z3.If(b.data.present, z3.And(z3.UGT(n, 0), z3.ULT(n, 1 << 32)), n == 0))
+            st.assume_fact(z3.If(b.data.present, z3.And(z3.UGT(n, 0), z3.ULT(n, 1 << 32)), n == 0))
         return n
     if isinstance(b, Opaque) and b.kind == 'SymBytes':
         return b.data['len']
@@ -175,16 +175,29 @@ def _bytes_len(it, st, args, ctx):
     return bytes_len(it, st, args[0])
 
 
+def runtime_type(v):
+    """type name of a value as seen by the codec model (generic MIR only knows `K` / `V`)"""
+    if isinstance(v, Agg):
+        return v.ty
+    if isinstance(v, EnumV):
+        return v.ty
+    if isinstance(v, z3.ExprRef) and z3.is_bv(v):
+        return 'u%d' % v.size()
+    if isinstance(v, Opaque):
+        return v.kind
+    return 'unknown'
+
+
 @summary(r'^<.* as (stdcode::)?StdcodeSerializeExt>::stdcode$')
 def _stdcode(it, st, args, ctx):
-    ty = re.match(r'^<(.*) as (?:stdcode::)?StdcodeSerializeExt>::stdcode$', ctx.callee).group(1)
-    return ser(type_base(ty), deref(it, st, args[0]))
+    v = deref(it, st, args[0])
+    return ser(runtime_type(v), v)
 
 
 @summary(r'^stdcode::serialize::<')
 def _serialize(it, st, args, ctx):
-    ty = re.match(r'^stdcode::serialize::<(.*)>$', ctx.callee).group(1)
-    return mk_ok(ser(type_base(ty), deref(it, st, args[0])))
+    v = deref(it, st, args[0])
+    return mk_ok(ser(runtime_type(v), v))
 
 
 @summary(r'^stdcode::deserialize::<')
@@ -192,7 +205,7 @@ def _deserialize(it, st, args, ctx):
     ty = type_base(re.match(r'^stdcode::deserialize::<(.*)>$', ctx.callee).group(1))
     b = deref(it, st, args[0])
     if isinstance(b, Opaque) and b.kind == 'Ser':
-        if b.data.ty == ty:
+        if b.data.ty == ty or re.fullmatch(r'[A-Z]', ty) or (ty == 'u64' and b.data.ty == 'u64'):
             # empty input fails to decode
             err = Opaque('BincodeError')
             ok = simp(b.data.present)
@@ -203,7 +216,34 @@ def _deserialize(it, st, args, ctx):
     hook = it.deser_hooks.get(ty) if hasattr(it, 'deser_hooks') else None
     if hook:
         return hook(it, st, b, ctx)
+    if isinstance(b, Opaque) and b.kind == 'SymBytes':
+        full = re.match(r'^stdcode::deserialize::<(.*)>$', ctx.callee).group(1)
+        return deser_symbytes(it, st, full, b)
     raise Unsupported('deserialize::<%s> of %r' % (ty, b))
+
+
+def deser_symbytes(it, st, full_ty, b):
+    """decoding arbitrary bytes: an arbitrary Result that is a function of the bytes' identity"""
+    ident = b.data['id']
+    tag = 'deser:' + full_ty
+    reads = st.notes.get(tag, ())
+    for (i2, ok2, v2) in reads:
+        if i2.eq(ident):
+            ok, val = ok2, v2
+            break
+    else:
+        n = len(reads)
+        nm = re.sub(r'\W+', '_', full_ty)
+        ok = fresh('decodes_%s_%d' % (nm, n), z3.BoolSort())
+        val = it.sym_value(full_ty if full_ty.startswith('(') else type_base(full_ty), 'decoded_%s_%d' % (nm, next(_deser_ctr)), st)
+        for (i2, ok2, v2) in reads:
+            st.assume_fact(z3.Implies(i2 == ident, z3.And(ok2 == ok, val_eq(v2, val))))
+        st.notes[tag] = reads + ((ident, ok, val),)
+    return EnumV('Result', z3.If(ok, bv(0, 8), bv(1, 8)), {'Ok': (val,), 'Err': (Opaque('BincodeError'),)})
+
+
+import itertools as _it
+_deser_ctr = _it.count()
 
 
 def _hash_of_bytes(it, st, domain, b):
@@ -253,15 +293,29 @@ def _hash_keyed(it, st, args, ctx):
 
 
 class TreeModel:
-    """entries newest-last; base: name of the arbitrary initial tree (None = empty tree)"""
+    """entries newest-last: (key term, byte value, guard); an entry only counts when its guard holds (guards come
+    from joining states).  base: name of the arbitrary initial tree (None = empty tree)"""
 
     def __init__(self, base, entries=(), value_types=None, reads=None):
         self.base = base
-        self.entries = tuple(entries)
+        self.entries = tuple(e if len(e) == 3 else (e[0], e[1], z3.BoolVal(True)) for e in entries)
         self.value_types = value_types or {}
 
-    def with_entry(self, k, v):
-        return TreeModel(self.base, self.entries + ((k, v),), self.value_types)
+    def with_entry(self, k, v, g=None):
+        return TreeModel(self.base, self.entries + ((k, v, z3.BoolVal(True) if g is None else g),), self.value_types)
+
+    def sym_ite(self, c, other):
+        if self.base != other.base:
+            raise Unsupported('ite of trees over different bases')
+        p = 0
+        while p < len(self.entries) and p < len(other.entries) and self.entries[p] is other.entries[p]:
+            p += 1
+        ents = list(self.entries[:p])
+        for (k, v, g) in self.entries[p:]:
+            ents.append((k, v, simp(z3.And(c, g))))
+        for (k, v, g) in other.entries[p:]:
+            ents.append((k, v, simp(z3.And(z3.Not(c), g))))
+        return TreeModel(self.base, ents, self.value_types)
 
     def flatten(self, out):
         raise Unsupported('flatten of a tree (use root_hash)')
@@ -272,6 +326,10 @@ class TreeModel:
 
 def tree(base, value_types):
     return Opaque('Tree', TreeModel(base, (), value_types))
+
+
+import itertools as _itertools
+_base_ctr = _itertools.count()
 
 
 def base_read(it, st, tm, key):
@@ -291,28 +349,40 @@ def base_read(it, st, tm, key):
     for (k2, v2) in reads:
         if k2.eq(key):
             return v2
-    n = len(reads)
+    n = next(_base_ctr)  # globally unique: reads made on different branches must not share variables
     present = z3.Bool('%s_present_%d' % (tm.base, n))
     val = it.sym_value(vty, '%s_val_%d' % (tm.base, n), st)
     v = ser(vty, val, present)
     for (k2, v2) in reads:
-        if hash_domain_of(k2) == dom:
-            st.assume(z3.Implies(k2 == key, v2.data.sym_eq(v.data)))
+        pair_axioms(it, st, tm.base, (k2, v2), (key, v))
     st.notes[tag] = reads + ((key, v),)
+    hook = it.base_single_hooks.get(tm.base) if hasattr(it, 'base_single_hooks') else None
+    if hook:
+        hook(it, st, key, dom, v)
     hook = it.base_read_hooks.get(tm.base) if hasattr(it, 'base_read_hooks') else None
     if hook:
         hook(it, st, key, dom, v)
     return v
 
 
+def pair_axioms(it, st, base, r1, r2):
+    """facts tying two lazily sampled entries of the same arbitrary tree: congruence, plus the harness' invariant"""
+    (k1, v1), (k2, v2) = r1, r2
+    if hash_domain_of(k1) == hash_domain_of(k2):
+        st.assume_fact(z3.Implies(k1 == k2, v1.data.sym_eq(v2.data)))
+    hook = it.base_pair_hooks.get(base) if hasattr(it, 'base_pair_hooks') else None
+    if hook:
+        hook(it, st, r1, r2)
+
+
 def tree_get(it, st, tm, key):
     v = base_read(it, st, tm, key)
     kd = hash_domain_of(key)
-    for (k, val) in tm.entries:
+    for (k, val, g) in tm.entries:
         d2 = hash_domain_of(k)
         if kd is not None and d2 is not None and kd != d2:
             continue  # A-HASH: ranges of different hash domains are disjoint (the DOM facts are in the pc as well)
-        c = simp(k == key)
+        c = simp(z3.And(g, k == key))
         if z3.is_true(c):
             v = val
         elif z3.is_false(c):
@@ -373,7 +443,7 @@ def tree_extensional_eq(it, st, ta, tb):
     if ta.base != tb.base:
         raise Unsupported('comparing trees over different bases')
     keys = []
-    for k, _ in ta.entries + tb.entries:
+    for k, _, _g in ta.entries + tb.entries:
         if not any(k.eq(k2) for k2 in keys):
             keys.append(k)
     conj = []
@@ -404,7 +474,7 @@ def _tree_root(it, st, args, ctx):
     made a function of contents by the harness when it compares two trees extensionally."""
     t = deref(it, st, args[0])
     tm = t.data
-    key = (tm.base, tuple((k.sexpr(), id(v)) for k, v in tm.entries))
+    key = (tm.base, tuple((k.sexpr(), id(v), g.sexpr()) for k, v, g in tm.entries))
     r = ROOT.get(key)
     if r is None:
         r = fresh('root_%s' % tm.base, B256)
